@@ -237,6 +237,27 @@ _add5("C16", "Errors built in the limits packages keep the wrapped error in thei
 _add5("C17", "The ASCII letters of a domain are lowered only after NFC normalisation (R4c); the compiler's remaining bounds checks in framework/address are discharged by dominating guards (R9).")
 _add5("C19", "On the failed-QUIT edge smtpconn.C.Close closes the socket itself (R11); a connection's lastUseAt is stamped when its own transaction ends, not after the join of all connections (R12).")
 _add5("C20", "Macro expansion is bounded: after a replacement list is spliced in, the list's length is compared with a bound (R3c); the import budget is shared by reference with imported files (R3b); numLineBreaks counts exactly the lexer's line feed (R6c); environment placeholders are substituted after the last import was expanded, so snippet bodies are covered (R4b).")
+# ---- eighth round (DESIGN.md §R.16)
 for _id in list(CLAIMED):
     tech, text, note, ref = CLAIMED[_id]
-    CLAIMED[_id] = (tech, text, note + "; rules are form-agnostic (named booleans, if/switch, loop forms, extracted helpers, renamed unexported functions and fields – DESIGN.md §R.7) and measured against a corpus of 61 behaviour-preserving refactorings (functions the reference tree did not have are read as part of their callers – §R.10) (refactorings/, refacallw.sh)", ref)
+    CLAIMED[_id] = (tech, text + " Discipline rules added in round 7, on every function of the property's packages: E8 (a possibly-nil pointer is not stored into an interface-typed place that the module compares with nil), E9 (a slice aliasing the list being ranged over grows by at most one element per element read), E10 (a package-level map is not stored into a field the package writes through), E11 (the pointer / interface result of a step is not dereferenced on the path on which its error is non-nil); E1 also covers errors constructed into a variable.", note, ref + ", §R.16")
+_add5("C01", "A fan-out over connections / targets reports each part's outcome for that part's recipients only (C09.K11 as R13); the next hop's 552 is turned into 452 for the answer to RCPT only (C16.R9 as R14).")
+_add5("C02", "The staging file of a record rewrite is opened truncating (R13).")
+_add5("C04", "A recipient is recorded for a target only on paths on which that target's AddRcpt was called in the same iteration (R11).")
+_add5("C05", "The field the requiretls_override directive stores into is the one tested together with the message's override flag (R14); every weakening of the TLS configuration in connect is followed, on every path to the next connection attempt, by the lowering of the reported level (R6, flow form).")
+_add5("C06", "The refusal-is-not-remembered condition holds for every runner that records a (state, recipient) pair, the replay of checkStates included (R9); while the DMARC lookup error is classified with a bare type assertion FetchRecord returns it unwrapped (R12); once the checks have run every successful return lies behind the test that no reject was recorded (R13).")
+_add5("C07", "The author domain leaves ExtractFromDomain converted to A-labels and is not converted back on the way to the query (R14); lookup errors reach the type assertion unwrapped (R13).")
+_add5("C09", "Inside a BodyNonAtomic loop over connections / targets a status is reported only for recipients of that part (K11); a recipient enters a target's accepted list only after the next hop accepted it (K12); the connection table is read and written under one key variable (K13).")
+_add5("C10", "Nothing is stored into the message metadata after the body was handed to the delivery (R9); a MemoryBuffer never aliases sync.Pool storage (R10); an envelope address reaches the pipeline only behind a utf8.ValidString test (R11).")
+_add5("C12", "module.GetInstance registers the shutdown hook only after Init returned (R15); a map field that Close sets to nil is stored into only behind a nil test (R16); every goroutine the queue's methods start is counted by a wait group first (R17).")
+_add5("C13", "A DANE refusal is enforced by a Close that leaves no usable client (C05.R12 as R9); dns.FQDN only qualifies the name – no conversion to U-labels on the way into a TLSA query (R10).")
+_add5("C14", "table.file's reload stamp is a modification time (C15.R12 as R3h); table.regexp adds no capturing group around the user's expression (R5b) and anchors a group around the whole expression under full_match (R5c).")
+_add5("C15", "Keys are made with letter-to-letter lower-casing, never with full case folding (C17.R4 as R14); a recorded reject wins over a quarantine (C06.R13 as R15); full_match anchors the whole expression (R16); the header stage accepts only with an accepting verdict – judged in the world in which every verdict is a refusal (R2).")
+_add5("C16", "WithTemporary(err, true) never wraps an error that stems from an smtpconn operation (R8); the next hop's reply code is rewritten for RCPT only (R9); the SASL server handed to the SMTP library is the endpoint's own and every error of its Next is an *smtp.SMTPError (R10); authorize_sender's header stage replaces a verdict by the constant refusal only behind a test that it is not temporary (R11).")
+_add5("C17", "What Split returns is the argument, a slice of it or nothing (R5); a case-folding step made with cases.Fold() is not lower-casing (R4).")
+_add5("C18", "A recipient enters a target's accepted list only after acceptance (C09.K12 as R14); the stored error text is not cut at a byte index (R15); smtpconn.C.Mail converts the reverse-path only when it is not empty (R16).")
+_add5("C19", "A one-valued receive from a bucket channel whose value is used is refused (R2c); a map field that Close sets to nil is stored into only behind a nil test (R13); a connection the pool handed out is taken over or closed, never dropped in favour of a new one (R7).")
+_add5("C20", "In-string macro expansion is bounded: after a value is substituted into an argument the argument's length is compared with a bound (R3d).")
+for _id in list(CLAIMED):
+    tech, text, note, ref = CLAIMED[_id]
+    CLAIMED[_id] = (tech, text, note + "; rules are form-agnostic (named booleans, if/switch, loop forms, extracted helpers, renamed unexported functions and fields – DESIGN.md §R.7) and measured against a corpus of 61 behaviour-preserving refactorings (60 quiet) (functions the reference tree did not have are read as part of their callers – §R.10) (refactorings/, refacallw.sh)", ref)
